@@ -268,8 +268,9 @@ End Format.
 (* toy segment cipher used by the correspondence run (harness: toyEnc)  *)
 (* ------------------------------------------------------------------ *)
 Definition toy_kb (nonce : bytes) : N := ((fold_left N.add nonce 7) mod 256)%N.
+(* FNV-1a, 32 bit *)
 Definition toy_sum (b : bytes) : N :=
-  fold_left (fun h x => ((h * 31 + x + 1) mod 4294967296)%N) b 17%N.
+  fold_left (fun h x => ((N.lxor h x * 16777619) mod 4294967296)%N) b 2166136261%N.
 Definition toy_encs (nonce s : bytes) : bytes :=
   map (fun x => N.lxor x (toy_kb nonce)) s ++ be_bytes 4 (toy_sum (nonce ++ s)).
 Definition toy_decs (nonce c : bytes) : option bytes :=
